@@ -1,5 +1,6 @@
 pub mod ws;
 pub mod broker;
 pub mod threaded_h;
+pub mod tokio_h;
 mod run;
-pub use run::run_c13;
+pub use run::{debug_plan, run_c13};
